@@ -108,6 +108,12 @@ SetMapEv ==
   /\ mem' = Line.membership
   /\ UNCHANGED <<vars, tid, drift, viol, parts, olive, ostage>>
 
+\* a call that has been started but is held inside the construction of its first synchroniser: it takes effect (as a "call"
+\* event) when it is released
+CallHeldEv ==
+  /\ Line.e = "callheld"
+  /\ UNCHANGED <<vars, tid, drift, viol, mem, parts, olive, ostage>>
+
 CallEv ==
   /\ Line.e = "call"
   /\ parts' = [parts EXCEPT ![Line.c] = IF Line.plan.prep = "dup" THEN Rng(Line.dupparticipants) ELSE Rng(Line.participants)]
@@ -183,5 +189,5 @@ CrashEv ==
 EndEv == Line.e = "end" /\ PrintT(<<"END", ToJson([t |-> tid, drift |-> drift])>>) /\ UNCHANGED <<vars, tid, drift, viol, mem, parts, olive, ostage>>
 
 TNext == /\ l <= Len(Trace) /\ l' = l + 1
-         /\ (Reset \/ SetMapEv \/ CallEv \/ StepEv \/ CancelEv \/ LateEv \/ InjectEv \/ EmitEv \/ CrashEv \/ EndEv)
+         /\ (Reset \/ SetMapEv \/ CallHeldEv \/ CallEv \/ StepEv \/ CancelEv \/ LateEv \/ InjectEv \/ EmitEv \/ CrashEv \/ EndEv)
 =============================================================================
